@@ -342,6 +342,49 @@ def run(ctx):
                 )
     if nret < 8:
         raise AnalysisError(f"only {nret} returns found in task/expression _calc_hash methods", "_calc_hash")
+    # ---- C15.7 every use of hash_args_eval keeps its two results apart and keys by all of the call's arguments -----
+    r7 = ctx.rule("C15.7", "hash_args_eval results are unpacked as (eval_hash, args_hash) and scheduler tasks key their own cache by all of their arguments", floor=3)
+    for construct, ok, msg, rel_, line in eval_key_obligations(repo):
+        r7.check(ok, construct, msg, rel_, line)
+
+
+def eval_key_obligations(repo):
+    """hash_args_eval returns (eval_hash, args_hash): the evaluation key `Eval(task hash, args hash)` and the bare args hash.  Swapping them at a call
+    site keys a cache by a pre-image without the task hash.  A scheduler task that keeps a cache entry of its own (catch) must compute the key from
+    *all* its own arguments -- dropping some (e.g. the error classes) lets a call with other arguments hit the entry."""
+    out = []
+    n = 0
+    for mod, c in repo.all_calls(lambda c: call_name(c) == "hash_args_eval"):
+        if mod.rel.startswith("redun/tests"):
+            continue
+        fn = mod.enclosing_func(c)
+        q = mod.enclosing_qual(c)
+        par = mod.parent.get(c)
+        if isinstance(par, ast.Assign) and isinstance(par.targets[0], ast.Tuple) and len(par.targets[0].elts) == 2:
+            n += 1
+            a, b = (src(e) for e in par.targets[0].elts)
+            ok = "eval" in a and "args" in b and "eval" not in b
+            out.append((f"{mod.rel}:{q}:hash_args_eval:unpack", ok, f"`{src(par.targets[0])} = hash_args_eval(...)`: the function returns (eval_hash, args_hash); unpacked in the other order the name `{a}` holds the bare "
+                        "argument hash, so whatever is cached or looked up under it is keyed without the task hash (a new version of the task still hits the old entry)", mod.rel, par.lineno))
+        # scheduler tasks: the argument tuple covers every own parameter after the (scheduler, parent_job, sexpr) triple
+        from .. import core as _core
+
+        if fn is not None and any((d.split(".")[-1] == "scheduler_task") for d in _core.decorators(fn)) and len(c.args) >= 3:
+            own = [a.arg for a in fn.args.args[3:]] + ([fn.args.vararg.arg] if fn.args.vararg else []) + ([fn.args.kwarg.arg] if fn.args.kwarg else [])
+            arg = c.args[2]
+            names = {x.id for x in ast.walk(arg) if isinstance(x, ast.Name)}
+            # follow one level of local re-binding of those names (catch_args = (expr,) + catch_args)
+            for a in ast.walk(fn):
+                if isinstance(a, ast.Assign) and isinstance(a.targets[0], ast.Name) and a.targets[0].id in names and a.lineno < c.lineno:
+                    sliced = {id(x.value) for x in ast.walk(a.value) if isinstance(x, ast.Subscript)}  # `p[1::2]` carries only part of p
+                    names |= {x.id for x in ast.walk(a.value) if isinstance(x, ast.Name) and id(x) not in sliced}
+            missing = [p for p in own if p not in names]
+            n += 1
+            out.append((f"{mod.rel}:{q}:hash_args_eval:all-arguments", not missing, f"{q} computes its own cache key from `{src(arg)[:60]}`, which does not cover its parameter(s) {missing}: two calls that differ only there "
+                        "(e.g. catch(expr, ValueError, recover) and catch(expr, KeyError, recover)) share the entry, so the second replays what the first cached (a handled error's recover expression) instead of evaluating", mod.rel, c.lineno))
+    if n < 3:
+        raise AnalysisError(f"only {n} hash_args_eval obligations found", "hash_args_eval")
+    return out
 
 
 def _defines(repo, cname: str, attr: str) -> bool:
